@@ -45,6 +45,8 @@ MUTATIONS tried (scratch copies, VERIF_REPO; list with sed expressions in selfte
     records dropped by pbind; skipped records mis-seeked; tail of a record longer than the 8192-byte copy buffer dropped;
     plist end address without granularity; plist sums booked on CODE; wrong segment name; wrong family name in
     headids.c; plist length column divided by the granularity.
+  detected after the -f / +f operation sequences were added (FilterList.tla): swap-remove of a cancelled filter entry
+    reading the slot past the end (`FilterBytes[FilterCnt--]`), which only shows with -f a,b,c +f <non-last entry>.
   equivalent (exit 0, rightly): pbind copying in 16-byte pieces.
 """
 import json
